@@ -60,7 +60,8 @@ THEOREMS = ['CpProofs.C16.' + t for t in (
     'file_range_end_to_end', 'file_http10_whole_entity', 'gen_conditional_iff_dictated', 'gen_not_dictated_full',
     # the request flow: response.stream, handlers that validate themselves (scripts), the tool as a step
     'respondX_legacy', 'flow_gen_run', 'runScript_pass_iff', 'flow_gen_iff_dictated', 'flow_gen_not_dictated_full',
-    'flow_gen_200_body', 'flow_304_no_body', 'flow_buffered_304_no_body', 'not_flow_304_no_body_full',
+    'flow_gen_200_body', 'flow_304_no_body', 'flow_304_no_body_full_holds', 'flow_buffered_304_no_body',
+    'unfixed_finalize_304_with_body', 'fixed_finalize_304_no_body',
     'flow_412_no_entity', 'flow_304_getHead', 'flow_non2xx_untouched', 'flow_file_stream', 'respondX_ignores_ifRange',
     'since_on_304', 'since_on_412', 'flow_handler_304_412', 'flow_raise_discards_entity',
     'respondX_conds_perm', 'respondX_from_header_texts', 'respondX_from_plain_texts',
@@ -102,16 +103,17 @@ LEVEL_TEXT = ('Proved in Lean over the model of the repaired code, without size 
               'GET/HEAD. Round 2: the request flow with response.stream and handlers that validate themselves (any '
               'script of body / validate_since / validate_etags(autotags) steps, the tool as one more step, the '
               'run-twice guard): conservative extension of the first model, 304/412 iff a header dictates it to an '
-              'executed step, the full entity otherwise, every validator-raised 304 without body / Content-Range / '
+              'executed step, the full entity otherwise, every 304 without body / Content-Range / '
               'Content-Length streamed or buffered, a raise always discards the entity, 412 never carries it; '
               'HeaderMap.elements in full (parameters, unquoting, stable sort, reversal, str): a permutation of the '
               'header-order elements in descending order, the decision independent of the order and equal to the simple '
               'split on parameter-free values, elements with parameters compared with their parameters; HTTPDate is '
               'injective on 1970..9999, so If-(Un)Modified-Since over dates is equality of the instants; If-Range is '
               'ignored; the multipart bytes are inverted by a delimiter-scanning receiver for every boundary text under '
-              'the (necessary) hypothesis that the delimiter does not occur early in a piece. Partial: the unrestricted '
-              '"every 304 has no body" is FALSE for a handler that sets 304 itself on a streamed response (negation '
-              'proved, witness replayed, known finding F17d); md5 and the boundary text are parameters; str.lower() of parameter names is '
+              'the (necessary) hypothesis that the delimiter does not occur early in a piece. "A 304 carries no body" holds '
+              'at full strength since the repair of F17d (b33ff58: finalize empties bodiless statuses also when streamed): '
+              'every 304, handler-chosen or validator-dictated, streamed or not; the finalize of a tree without the repair '
+              'is kept as a definition with its refutation. Partial: md5 and the boundary text are parameters; str.lower() of parameter names is '
               'ASCII-only in the model; fractional mtimes are compared only end to end.')
 LEVEL_NOTE = ('Trusted: Lean kernel (axioms propext, Classical.choice, Quot.sound only); the hand models CpModel/Ranges.lean, '
               'Validators.lean, CondFlow.lean, CondElements.lean, HttpDate.lean as validated on every run by the differential '
@@ -136,8 +138,6 @@ ASSUMPTIONS = [
     'parameter names inside If-Match / If-None-Match elements contain no cased non-ASCII letters (str.lower() is modelled '
     'for ASCII only)',
     'mtimes are integers or carry a fraction that does not round up to the next second at microsecond precision',
-    'a handler that sets status 304 itself on a streamed response and still returns a body gets it delivered: recorded '
-    'as known finding F17d (every 304 raised by a validator is bodiless, proved and checked)',
 ]
 RULE = ('R: Range header texts from the RFC 7233 byte-range grammar (first-last, first-, -suffix, lists, overlapping, '
         'out-of-order, beyond EOF, optional whitespace, boundary positions around the length) plus character/structure '
@@ -1175,15 +1175,8 @@ def oracle_request(case, obs):
         if st not in (304, 412):
             bad.append(('handler status %d turned into %d' % (base, st), 'req:non2xx_base_changed'))
         elif st == 304 and body:
-            # a 304 the validators dictate never carries a body; neither does any buffered 304 (finalize).
-            # Only a handler that sets 304 itself on a streamed response and returns a body anyway is on its own.
-            dictated = bool(L and case.get('ims') and case['ims'] == L and gh)
-            if dictated or not (stream and base == 304):
-                bad.append(('304 with a %d-byte body' % len(body), 'req:304_with_body'))
-            else:
-                # known finding F17d: finalize() lets a streamed response keep its body whatever the status
-                bad.append(('304 chosen by the handler itself on a streamed response keeps its %d-byte body' % len(body),
-                            'req:304_with_body:handler_status_streamed'))
+            # no 304 carries a body, whoever chose the status, streamed or not (finalize; F17d repaired in b33ff58)
+            bad.append(('304 with a %d-byte body' % len(body), 'req:304_with_body'))
         return bad
     # ---- the current validators ------------------------------------------------------------
     if etag_candidates is None:
